@@ -202,6 +202,25 @@ Theorem C02_attempts_for_unit_machines :
 Proof. exact (fun unicast => life_attempts unicast pause_table). Qed.
 Print Assumptions C02_attempts_for_unit_machines.
 
+(* "the attempt results carried by TestFinished are the unit's": the ExecutionStatuses the
+   dispatcher reports in TestFinished for a test whose events come from a unit-life machine are that
+   machine's own log of attempts, oldest first (= the records on l_done), and the machine has sent
+   Finished.  (The dispatcher accumulates past_attempts from AttemptFailedWillRetry; no hypothesis
+   on the rest of the history, nor on the number of signals.) *)
+Theorem C02_finished_statuses_are_life_log_for_unit_machines :
+  forall unicast S mf dbg h t es y sts st rn cs,
+    let c := cfg_of_lsystem S in
+    let ah := annotate (Live (init_for c mf dbg)) h in
+    memb t (ls_sel S) = true ->
+    lsys_run unicast pause_table (ls_cfg S t) (lsys0 (ls_cfg S t)) es = LOk y ->
+    filter (of_test t) ah = project_life pause_table (ls_fd S t) t (ls_cfg S t) es ->
+    In (ETestFinished t sts st rn cs) (out (Live (init_for c mf dbg)) h) ->
+    st_all sts = log_attempts (ls_fd S t) (ls_cfg S t) (y_log y) /\
+    st_all sts = map (attempt_of (ls_fd S t) (ls_cfg S t)) (rev (l_done (y_s y))) /\
+    l_ph (y_s y) = LFinishedP.
+Proof. exact (fun unicast => finished_statuses_are_life_log unicast pause_table). Qed.
+Print Assumptions C02_finished_statuses_are_life_log_for_unit_machines.
+
 (* dispatcher_never_panics_on_wf with [wf_history] replaced: duplicate new_test / missing
    finish_test are unreachable when the units are unit-life machines *)
 Theorem dispatcher_never_panics_for_unit_machines :
@@ -331,6 +350,17 @@ Proof.
   exact (proj1 (Product_run_is_life_history true lr_sys (Some 1) true lr_run yf ah
                   (proj1 LifeRefines_product_run) E)).
 Qed.
+
+(* the TestFinished of test 0 in that stream carries exactly the one attempt of unit 0's log *)
+Example LifeRefines_finished_statuses :
+  filter (is_finished_of 0) (out (Live (init_for (cfg_of_lsystem lr_sys) (Some 1) true)) lr_history)
+  = [ETestFinished 0 (mk_statuses [] (mk_attempt (Fail (Some 6) false) false 1 1))
+                   (mk_stats 2 1 0 1 1 0 0 0 0 0 0 1 0 0 0 0 1) 1 None] /\
+  match lsys_run true pause_table (ls_cfg lr_sys 0) (lsys0 (ls_cfg lr_sys 0)) (unit_events 0 lr_run) with
+  | LOk y => log_attempts (ls_fd lr_sys 0) (ls_cfg lr_sys 0) (y_log y)
+  | _ => []
+  end = [mk_attempt (Fail (Some 6) false) false 1 1].
+Proof. split; vm_compute; reflexivity. Qed.
 
 (* the hypothesis is not idle: the same run with the last handshake ACCEPTED is not a run of the
    product (the dispatcher refuses once cancel_state is set, and so does the unit's environment),
